@@ -229,45 +229,49 @@ impl LsmTree {
         let ghost l0 = self.base@;
         let ghost h = self.history@;
 //@ >>
-//@ loop 0 <<
+//@ loop `for fidx in` <<
             invariant *self == *old(self), self.moved@ == ISet::<Setsum>::empty(), manis@.len() == h.len(), h == self.history@, l0 == self.base@,
                 /* contract-inv */ disjoint(ssts_to_remove@, listing_at(l0, h, fidx as int, 0)),
 //@ >>
-//@ loop 1 <<
+//@ loop `while eidx <` <<
                 invariant *self == *old(self), self.moved@ == ISet::<Setsum>::empty(), manis@.len() == h.len(), h == self.history@, l0 == self.base@, fidx < h.len(), mani_iter.edits() == h[fidx as int],
                     eidx <= mani_iter.edits().len(), first <==> eidx == 0,
                     /* contract-inv */ disjoint(ssts_to_remove@, listing_at(l0, h, fidx as int, eidx as int)),
                 decreases mani_iter.edits().len() - eidx,
 //@ >>
-//@ loop 2 <<
+//@ loop `for ridx in` <<
                     invariant rmv@.len() == edit@.rm.len(), forall|i: int| 0 <= i < rmv@.len() ==> (#[trigger] rmv@[i])@ == edit@.rm[i],
-                        /* contract-inv */ ssts_to_remove@ =~= set1.union(parsed(edit@.rm, ridx as int)),
+                        /* contract-inv */ ssts_to_remove@ =~= set_r.union(parsed(edit@.rm, ridx as int)),
 //@ >>
-//@ loop 3 <<
+//@ loop `for aidx in` <<
                     invariant addv@.len() == edit@.add.len(), forall|i: int| 0 <= i < addv@.len() ==> (#[trigger] addv@[i])@ == edit@.add[i],
-                        /* contract-inv */ ssts_to_remove@ =~= set2.difference(parsed(edit@.add, aidx as int)),
+                        /* contract-inv */ ssts_to_remove@ =~= set_a.difference(parsed(edit@.add, aidx as int)),
 //@ >>
-//@ loop 4 <<
+//@ loop `for sidx in` <<
             invariant self.history@ == h, self.base@ == l0, forall|x: Setsum| to_remove@.contains(x) <==> set_final.contains(x),
                 /* contract-inv */ forall|x: Setsum| self.moved@.contains(x) ==> set_final.contains(x),
 //@ >>
+//@ startloop `while eidx <` <<
+                let ghost set0 = ssts_to_remove@;
+//@ >>
 //@ before `let rmv = edit.rmed_vec();` <<
-                let ghost set1 = ssts_to_remove@;
+                let ghost set_r = ssts_to_remove@;
                 proof { assert(parsed(edit@.rm, 0) =~= ISet::<Setsum>::empty()); }
 //@ >>
-//@ endloop 2 <<
+//@ endloop `for ridx in` <<
                     proof { lemma_parsed_step(edit@.rm, ridx as int); }
 //@ >>
 //@ before `let addv = edit.added_vec();` <<
-                let ghost set2 = ssts_to_remove@;
+                let ghost set_a = ssts_to_remove@;
                 proof { assert(parsed(edit@.add, 0) =~= ISet::<Setsum>::empty()); }
 //@ >>
-//@ endloop 3 <<
+//@ endloop `for aidx in` <<
                     proof { lemma_parsed_step(edit@.add, aidx as int); }
 //@ >>
-//@ afterloop 3 <<
+//@ endloop `while eidx <` <<
                 proof {
-                    lemma_edit_step(set1, listing_at(l0, h, fidx as int, eidx as int - 1), edit@);
+                    // one edit: removals into the set first, additions out of it afterwards -- the order Manifest::apply_edit uses
+                    lemma_edit_step(set0, listing_at(l0, h, fidx as int, eidx as int - 1), edit@);
                     assert(listing_at(l0, h, fidx as int, eidx as int) == apply(listing_at(l0, h, fidx as int, eidx as int - 1), h[fidx as int][eidx as int - 1]));
                 }
 //@ >>
